@@ -1797,13 +1797,23 @@ def c01g(F, R):
     st = arms.get("Store")
     if st is None:
         raise Anchor("gen_memory_value has no Store arm")
-    claims = [c for c in walk(st["body"], pats=False) if c.get("k") == "Call" and short(callee_of(c) or "") == "Some"]
-    mentions_width = any(n.get("k") == "Path" and (n.get("res") or "").startswith(ST + "::") for n in walk(st["body"])) or \
-        any(n.get("k") == "Path" and (n.get("res") or "").startswith(ST + "::") for n in walk(st.get("guard") or {}))
-    if not claims:
-        R.ok("store", detail="stores generate no memory fact")
-    elif mentions_width:
-        R.ok("store", detail="the Store arm of gen_memory_value distinguishes the store width")
+    # evaluate the arm for a narrow store to a stack slot: whatever the spelling (`if .. { Some(..) }`, `cond.then(|| ..)`), it must claim nothing
+    from .nodeprops import eval_prop_full, Unx
+    narrow = [v for v in F.variants(ST) if v not in ("Sw", "Sd")]
+    claiming = []
+    unx = None
+    for v in narrow:
+        try:
+            r = eval_prop_full(F, "gen_memory_value", "Store", {"rs1": "X2", "rs2": "X5", "imm": 8, "inst": v}, trait="HasGenValueInfo")
+        except Unx as ex:
+            unx = str(ex)
+            continue
+        if r != "none":
+            claiming.append(v)
+    if unx is not None and not claiming:
+        R.bad("store|unextractable", f"UNEXTRACTABLE: gen_memory_value for a narrow store ({unx})", loc(st))
+    elif not claiming:
+        R.ok("store", detail=f"narrow stores ({', '.join(narrow)}) generate no whole-word slot fact")
     else:
         R.bad("store", "gen_memory_value claims `slot = rs2` for every StoreType: after `sb t0, 0(sp)` the slot is claimed to hold the whole of t0 (0x1234) while memory holds one byte of it; `lw` then copies the false value into a register", loc(st))
     # loads: wherever a register receives the slot's value, the load width must be consulted
